@@ -314,7 +314,7 @@ func (t *Ticket) OrderDigest() ([32]byte, error) {
 	case VersionUnannouncedZeroConf:
 		err := codec.WriteElements(
 			&msg, t.ID[:], uint8(t.Version), t.Offer.Capacity,
-			t.Offer.PushAmt, t.Offer.Auto,
+			t.Offer.PushAmt, t.Order.BidNonce[:],
 			t.Offer.UnannouncedChannel, t.Offer.ZeroConfChannel,
 		)
 		if err != nil {
